@@ -24,7 +24,8 @@ EXTENDS Integers, Sequences, FiniteSets, TLC, Json
 CONSTANTS MaxDepth,     \* 1..3
           SharedEnv,    \* mutant: the gensym environment is not reset between templates
           NoEnv,        \* mutant: every occurrence of x# gets a new symbol
-          QualSpecial   \* mutant: special forms are qualified like any other unknown symbol
+          QualSpecial,  \* mutant: special forms are qualified like any other unknown symbol
+          NestShares    \* mutant: a template nested in an unquote uses the gensym environment of the enclosing one
 
 (* ------------------------------- data ---------------------------------------------- *)
 Nil == [ty |-> "nil"]
@@ -86,6 +87,11 @@ TK(v) == [t |-> "k", v |-> v]
 TUnq(e) == [t |-> "unq", e |-> e]
 TSpl(e) == [t |-> "spl", e |-> e]
 TColl(c, xs) == [t |-> "coll", c |-> c, xs |-> xs]     \* c in list vec set map (map: xs = k1 v1 k2 v2 ..)
+\* ~`inner : an unquote whose expression is itself a syntax-quoted template (the shape of macros that build clauses
+\* with ~@(map (fn [c] `(...)) clauses)).  It is a template of its own: its x# is NOT the x# of the enclosing one.
+\* In the enumerated family it is the last element of the outermost collection and inner has no unquote, so that
+\* identifiers are allocated outer-first and Denote can number them without threading a counter.
+TNest(inner) == [t |-> "nest", inner |-> inner]
 
 (* ------------------------------- forms --------------------------------------------- *)
 FQ(s) == [f |-> "quote", s |-> s]
@@ -93,6 +99,7 @@ FG(id) == [f |-> "gquote", id |-> id]
 FC(v) == [f |-> "const", v |-> v]
 FE(e) == [f |-> "expr", e |-> e]
 FB(c, segs) == [f |-> "build", c |-> c, segs |-> segs]
+FN(g) == [f |-> "nest", g |-> g]                       \* the form of the nested template, inserted as an expression
 One(f) == [k |-> "one", f |-> f]
 Many(e) == [k |-> "many", e |-> e]
 
@@ -106,6 +113,8 @@ Exp(t, ns, st) ==
                      ELSE [f |-> FG(st.nxt), st |-> [env |-> Append(st.env, [n |-> t.n, id |-> st.nxt]), nxt |-> st.nxt + 1]]
     [] t.t = "k" -> [f |-> FC(t.v), st |-> st]
     [] t.t = "unq" -> [f |-> FE(t.e), st |-> st]
+    [] t.t = "nest" -> LET a == Exp(t.inner, ns, [env |-> IF NestShares THEN st.env ELSE <<>>, nxt |-> st.nxt])
+                       IN [f |-> FN(a.f), st |-> [env |-> st.env, nxt |-> a.st.nxt]]
     [] t.t = "coll" -> LET r == ExpSegs(t.xs, ns, st) IN [f |-> FB(t.c, r.segs), st |-> r.st]
 ExpSegs(xs, ns, st) ==
   IF xs = <<>> THEN [segs |-> <<>>, st |-> st]
@@ -143,6 +152,7 @@ EvalForm(F) ==
     [] F.f = "gquote" -> G(F.id)
     [] F.f = "const" -> F.v
     [] F.f = "expr" -> ExprVal(F.e)
+    [] F.f = "nest" -> EvalForm(F.g)
     [] F.f = "build" ->
          Build(F.c, Flat([j \in 1..Len(F.segs) |->
                             IF F.segs[j].k = "one" THEN <<EvalForm(F.segs[j].f)>> ELSE SpliceElems(ExprVal(F.segs[j].e))]),
@@ -163,6 +173,7 @@ Denote(t, ns, names, base) ==
     [] t.t = "gs" -> G(IdOf(names, base, t.n))
     [] t.t = "k" -> t.v
     [] t.t = "unq" -> ExprVal(t.e)
+    [] t.t = "nest" -> Denote(t.inner, ns, FirstOcc(t.inner), base + Len(names))     \* its own symbols, after the outer ones
     [] t.t = "coll" ->
          Build(t.c, Flat([j \in 1..Len(t.xs) |->
                             IF t.xs[j].t = "spl" THEN SpliceElems(ExprVal(t.xs[j].e))
@@ -170,9 +181,10 @@ Denote(t, ns, names, base) ==
                t.xs = <<>>)
 
 RECURSIVE HasUnq(_), SymsOf(_), Depth(_)
-HasUnq(t) == t.t \in {"unq", "spl"} \/ (t.t = "coll" /\ \E j \in 1..Len(t.xs) : HasUnq(t.xs[j]))
+HasUnq(t) == t.t \in {"unq", "spl", "nest"} \/ (t.t = "coll" /\ \E j \in 1..Len(t.xs) : HasUnq(t.xs[j]))
 SymsOf(t) == CASE t.t = "sym" -> {[q |-> t.q, n |-> t.n]}
                [] t.t = "coll" -> UNION {SymsOf(t.xs[j]) : j \in 1..Len(t.xs)}
+               [] t.t = "nest" -> SymsOf(t.inner)
                [] OTHER -> {}
 Depth(t) == IF t.t # "coll" THEN 0
             ELSE 1 + (IF t.xs = <<>> THEN 0 ELSE CHOOSE m \in 0..3 : /\ \E j \in 1..Len(t.xs) : Depth(t.xs[j]) = m
@@ -224,7 +236,13 @@ C2 == Wrap(R1)
 R2 == {TColl("list", <<TGs("x"), t>>) : t \in R1} \cup {TColl("vec", <<t, TSpl("eqlst")>>) : t \in R1}
       \cup {TColl("map", <<TK(K("c")), t>>) : t \in R1}
 C3 == Wrap(R2)
-Templates == Leaves \cup C1 \cup (IF MaxDepth >= 2 THEN C2 ELSE {}) \cup (IF MaxDepth >= 3 THEN C3 ELSE {})
+NestInner == {TGs("x"), TColl("list", <<TGs("x"), TSym("", "first")>>), TColl("vec", <<TGs("x"), TGs("y"), TGs("x")>>),
+              TColl("map", <<TK(K("c")), TGs("y")>>), TColl("list", <<TSym("", "lv"), TK(I(7))>>)}
+CN == {TColl(c, <<a, TNest(i)>>) : c \in {"list", "vec"}, a \in {TGs("x"), TGs("y"), TSym("", "lv")}, i \in NestInner}
+      \cup {TColl("list", <<TGs("x"), TGs("y"), TNest(i)>>) : i \in NestInner}
+      \cup {TColl("vec", <<TNest(i)>>) : i \in NestInner}
+      \cup {TColl("map", <<TGs("x"), TNest(i)>>) : i \in NestInner}
+Templates == Leaves \cup C1 \cup CN \cup (IF MaxDepth >= 2 THEN C2 ELSE {}) \cup (IF MaxDepth >= 3 THEN C3 ELSE {})
 
 (* sets and maps must be readable: no two equal elements / keys in the text, none after evaluation either *)
 RECURSIVE WellFormed(_, _)
@@ -255,10 +273,14 @@ Finish == tpl # NoT /\ ~done /\ done' = TRUE /\ UNCHANGED <<tpl, ns>>
 Next == Pick \/ Finish
 Spec == Init /\ [][Next]_vars
 
-HasGs(t) == GsOf(t) # <<>>
+RECURSIVE NestGs(_)
+NestGs(t) == CASE t.t = "nest" -> Len(FirstOcc(t.inner))
+               [] t.t = "coll" -> (IF t.xs = <<>> THEN 0 ELSE NestGs(t.xs[Len(t.xs)]))     \* (a nest is a last element)
+               [] OTHER -> 0
+HasGs(t) == GsOf(t) # <<>> \/ NestGs(t) > 0
 Prog(t) == IF HasGs(t) THEN <<t, t, t>> ELSE <<t>>
 Forms == Expand(Prog(tpl), ns)
-NG == Len(FirstOcc(tpl))
+NG == Len(FirstOcc(tpl)) + NestGs(tpl)            \* generated symbols per instance: the template's and its nested one's
 
 (* ------------------------------- what TLC checks ----------------------------------- *)
 (* evaluating the form the reader must produce gives the direct reading of the template *)
@@ -269,6 +291,7 @@ QuotedData == (done /\ ~HasUnq(tpl)) => EvalForm(Forms[1]) = QData(tpl, ns, Firs
 (* the gensym map is a function within a template, injective, and fresh across templates *)
 RECURSIVE GIds(_)
 GIds(F) == CASE F.f = "gquote" -> {F.id}
+             [] F.f = "nest" -> GIds(F.g)
              [] F.f = "build" -> UNION {IF F.segs[j].k = "one" THEN GIds(F.segs[j].f) ELSE {} : j \in 1..Len(F.segs)}
              [] OTHER -> {}
 GensymFunction == done => \A k \in 1..Len(Forms) : Cardinality(GIds(Forms[k])) = NG
